@@ -453,7 +453,10 @@ fn quiescence_checks(sh: &Shared, cfg: &Config, keys: u32, stats: &mut mmv::moni
         out.push(Violation { props: vec!["C10"], sig: "counters:entry_count:concurrent".into(), detail: format!("after join + sync: entry_count() = {}, {} entries held", s.entry_count, n), op_index: 0 });
     }
     if s.weighted_size != wsum {
-        out.push(Violation { props: vec!["C10", "C03"], sig: "counters:weighted_size:concurrent".into(), detail: format!("after join + sync: weighted_size() = {}, held entries weigh {}", s.weighted_size, wsum), op_index: 0 });
+        // too high: the cache refuses entries although it has room (C03); too low: it will grow past
+        // its capacity (C04)
+        let props = if s.weighted_size > wsum { vec!["C10", "C03"] } else { vec!["C10", "C04"] };
+        out.push(Violation { props, sig: "counters:weighted_size:concurrent".into(), detail: format!("after join + sync: weighted_size() = {}, held entries weigh {}", s.weighted_size, wsum), op_index: 0 });
     }
     if let Some(cap) = cfg.cap {
         if wsum > cap {
@@ -523,6 +526,18 @@ fn quiescence_checks(sh: &Shared, cfg: &Config, keys: u32, stats: &mut mmv::moni
             }
             stats.inc("refills_performed");
             stats.add("refill_inserts", cap);
+            let s3 = sh.snapshot();
+            let held: u64 = s3.entries.iter().map(|e| e.weight as u64).sum();
+            if let Some(c) = cfg.cap {
+                if held > c {
+                    out.push(Violation {
+                        props: vec!["C04"],
+                        sig: "refill:resident-weight-over-max".into(),
+                        detail: format!("after the refill: held weight {} > max_capacity {} (weighted_size() = {})", held, c, s3.weighted_size),
+                        op_index: 0,
+                    });
+                }
+            }
             if !lost.is_empty() {
                 out.push(Violation {
                     props: vec!["C03"],
@@ -1043,6 +1058,26 @@ fn gen_chase_prog(rng: &mut Rng, scale: u64) -> Prog {
     let mut threads = Vec::new();
     if cfg.weigher {
         cfg.cap = *rng.pick(&[Some(300u64), Some(8), Some(4)]);
+        if rng.chance(1, 2) {
+            // weight flip: one key keeps changing between a small and a large weight and is
+            // invalidated, while another thread runs the maintenance in a loop: aims at the
+            // windows inside the application of one queued update
+            let mut w = Vec::new();
+            for _ in 0..rng.range(30, 80) * scale {
+                let k = rng.below(keys as u64) as u32;
+                w.push(COp::Insert { k, w: 1 });
+                w.push(COp::Insert { k, w: 1 });
+                w.push(COp::Insert { k, w: 100 });
+                w.push(COp::Invalidate { k });
+            }
+            let n = w.len() as u64;
+            threads.push(w);
+            threads.push((0..n).map(|_| COp::Sync).collect());
+            if rng.chance(1, 2) {
+                threads.push((0..n / 2).map(|_| COp::Sync).collect());
+            }
+            return Prog { cfg, threads };
+        }
     }
     for _ in 0..writers {
         let mut ops = Vec::new();
